@@ -1,4 +1,4 @@
-import MsqProofs.Lemmas.ParseWNSkel
+import MsqProofs.Lemmas.ParseWNSkelK
 import MsqProofs.Lemmas.ParseWNCovStmt2
 import MsqProofs.Lemmas.ParseMono
 import MsqModel.Parse.Entry
@@ -25,7 +25,8 @@ one production per precedence level, `left : L`, `right : L - 1` (left associati
 * `C02.parse_deterministic` : the tree and the rest do not depend on the fuel.
 Deviations of the code from the documented table that `Derives` has to admit (each with the Python line) are listed in
 ParseWN0.lean (DEVIATION 1–5); `C02.binary_bang_witness` / `reserved_word_column_witness` are evaluated witnesses on the model.
-* `C02.derives_unique_logic`, `derives_unique_compute` (+ `logic_skeleton_exists` / `_derives`, `compute_…`, `parse_unique_over_operands`):
+* `C02.derives_unique_logic`, `derives_unique_keyword`, `derives_unique_compute` (+ `logic_skeleton_exists` / `_derives`, `keyword_…`, `compute_…`,
+  `parse_unique_over_operands`):
   uniqueness for the operator layers — once it is fixed which token runs are the operands (level 9 resp. elements), the documented
   levels leave exactly one tree (`OPG.unique`, MsqProofs/Lemmas/OpGrammar.lean: an operator grammar with prefix and left-associative
   binary levels over opaque operands is unambiguous).
@@ -35,7 +36,7 @@ ParseWN0.lean (DEVIATION 1–5); `C02.binary_bang_witness` / `reserved_word_colu
 * `C02.statements_exprs_derive`, `statements_text_exprs_derive`, `partition_spec_derives`, `column_definition_derives`: the same for every
   statement of a script (`parse_statements`): partition specs, column defaults, VALUES rows, UPDATE … SET values, … (`WNG.exprsStmt`).
 What is NOT here: uniqueness of `Derives` as a whole (see `derives_not_unique_witness`: WHICH tokens are elements is not determined
-where an operator sign is read as a column name), the keyword-predicate level in the skeletons, a SELECT / statement GRAMMAR (which clause a token run belongs
+where an operator sign is read as a column name; the three skeleton theorems are not composed into ONE statement over elements), a SELECT / statement GRAMMAR (which clause a token run belongs
 to is C03's T-parse, not stated here).
 -/
 set_option linter.unusedVariables false
@@ -197,6 +198,14 @@ theorem compute_skeleton_derives (d : Gen.D) (ts : List Tok) (e : Expr) (items :
   exact ⟨L, f ▸ he ▸ derives_of_GC g ha⟩
 theorem derives_unique_compute (d : Gen.D) (ts ts' : List Tok) (e e' : Expr) (items : List It)
     (h : SkelC d ts e items) (h' : SkelC d ts' e' items) : e = e' ∧ ts = ts' := skelC_unique h h'
+
+/-- the same for the KEYWORD-PREDICATE layer (level 9): operands are compute-level expressions (and the bracket groups of IN /
+EXISTS with what they stand for), operators the keyword tokens; a chain of predicate tails `[NOT] BETWEEN f AND t`, `[NOT] IS a`,
+`IS NOT a`, `[NOT] LIKE / RLIKE / REGEXP a`, `[NOT] IN g`, each taking everything to its left as its left operand -/
+theorem keyword_skeleton_exists (d : Gen.D) (L : Nat) (ts : List Tok) (e : Expr) (h : Derives d L ts e) (hL : L ≤ 9) :
+    ∃ items, flatI items = ts ∧ KD d items e ∧ ∀ u a, Item.atom (u, a) ∈ items → AtomK d u a := skelK_of h hL
+theorem derives_unique_keyword (d : Gen.D) (items : List It) (e e' : Expr) (h : KD d items e) (h' : KD d items e') : e = e' :=
+  h.unique h'
 
 /-- for the parser: what `pOr` returns is the ONLY tree over the operands of its logical skeleton -/
 theorem parse_unique_over_operands (d : Gen.D) (f : Nat) (ts : List Tok) (e : Expr) (rest : List Tok) (h : pOr d f ts = .ok (e, rest)) :
